@@ -198,6 +198,13 @@ def recanon(s):
     return s
 
 
+def negate(c):
+    """logical negation with De Morgan (so that `a == 0 && b >= c` and `!(a > 0 || b < c)` meet)"""
+    if isinstance(c, list) and c and c[0] == "op" and c[1] in ("&&", "||"):
+        return op("||" if c[1] == "&&" else "&&", negate(c[2]), negate(c[3]))
+    return canon(["not", c])
+
+
 def occurs(s, x):
     if s == x:
         return True
@@ -289,6 +296,74 @@ def common_prefix(sa, sb):
     if n == 0:
         return [], sa, sb
     return A[:n], {"steps": A[n:], "ret": sa["ret"]}, {"steps": ren(B[n:]), "ret": ren(sb["ret"])}
+
+
+def antiunify(x, y, holes):
+    """most specific common generalisation of two value terms; differing subterms become ["hole", i] (pairs in holes)"""
+    if x == y:
+        return x
+    if isinstance(x, list) and isinstance(y, list) and len(x) == len(y) and x:
+        if isinstance(x[0], str) and x[0] == y[0] and x[0] in ("ctor", "struct", "tuple", "vec"):
+            if x[0] in ("ctor", "struct") and x[1] != y[1]:
+                holes.append((x, y))
+                return ["hole", len(holes) - 1]
+            return [x[0]] + [antiunify(a, b_, holes) for a, b_ in zip(x[1:], y[1:])]
+        if isinstance(x[0], list) or (len(x) == 2 and isinstance(x[0], str) and x[0] == y[0] and isinstance(x[1], list) and x[0] not in ("v", "n", "p", "unit", "lp")):
+            # argument lists, field lists [[name, value], ..] and [name, value] pairs
+            return [antiunify(a, b_, holes) if isinstance(a, list) else a for a, b_ in zip(x, y)] if all((not isinstance(a, str)) or a == b_ for a, b_ in zip(x, y)) else _hole(x, y, holes)
+    return _hole(x, y, holes)
+
+
+def _hole(x, y, holes):
+    holes.append((x, y))
+    return ["hole", len(holes) - 1]
+
+
+def common_suffix(sa, sb):
+    """steps both arms end with (up to binder names) that do not depend on what differs before them:
+    -> (rest of sa, rest of sb, suffix steps in sa's names, sb's ret renamed) or None"""
+    A, B = sa["steps"], sb["steps"]
+    if not (sa["ret"] and sb["ret"] and sa["ret"][0] == "ok" and sb["ret"][0] == "ok"):
+        return None
+    best = None
+    n = 1
+    while n <= len(A) and n <= len(B):
+        sufA, sufB = A[len(A) - n:], B[len(B) - n:]
+        if any(s[0] not in HOISTABLE for s in sufA + sufB):
+            break
+        # binders defined in the differing fronts must not be used by the suffix
+        frontA = set(s[1] for s in A[:len(A) - n] if len(s) > 1 and isinstance(s[1], str))
+        frontB = set(s[1] for s in B[:len(B) - n] if len(s) > 1 and isinstance(s[1], str))
+        m = {}
+        def ren(x):
+            if isinstance(x, list):
+                if len(x) == 2 and x[0] == "v" and x[1] in m:
+                    return ["v", m[x[1]]]
+                return [ren(y) for y in x]
+            return x
+        ok = True
+        for a, b_ in zip(sufA, sufB):
+            if a[0] != b_[0]:
+                ok = False
+                break
+            if a[0] == "tag":
+                if a != b_:
+                    ok = False
+                    break
+                continue
+            if a[2:] != ren(b_[2:]):
+                ok = False
+                break
+            if any(occurs(a[2:], ["v", f]) for f in frontA) or any(occurs(b_[2:], ["v", f]) for f in frontB):
+                ok = False
+                break
+            m[b_[1]] = a[1]
+        if not ok:
+            n += 1
+            continue   # a longer window may be consistent (its first steps define what the later ones use)
+        best = ({"steps": A[:len(A) - n], "ret": sa["ret"]}, {"steps": B[:len(B) - n], "ret": ren(sb["ret"])}, sufA)
+        n += 1
+    return best
 
 
 def eq_consts(c):
@@ -569,6 +644,26 @@ class Builder:
     def _wrap(self, k, fn, *extra):
         b = self.counter.fresh()
         seq = self._nested(fn)
+        st = seq["steps"]
+        if k in ("complete", "many1", "cut", "all_consuming") and not extra and len(st) == 1 and st[0][0] in ("switch", "ite") and seq["ret"] == ["ok", V(st[0][1])]:
+            # W(match x {k => P_k}) with x fixed before W starts is match x {k => W(P_k)}: the dispatch is outermost
+            # (a parser picked once, e.g. through a fn pointer, and then wrapped = wrapping each candidate)
+            br = st[0]
+            memo = {}
+            def wrapped(s):
+                if id(s) not in memo:
+                    if not s["steps"] and s["ret"] and s["ret"][0] == "err":
+                        memo[id(s)] = s
+                    else:
+                        nb_ = self.counter.fresh()
+                        memo[id(s)] = {"steps": [[k, nb_, s]], "ret": ["ok", V(nb_)]}
+                return memo[id(s)]
+            if br[0] == "ite":
+                self.steps.append(["ite", br[1], br[2], wrapped(br[3]), wrapped(br[4])])
+            else:
+                self.steps.append(["switch", br[1], br[2], [[c, wrapped(s)] for c, s in br[3]], wrapped(br[4])])
+            self._adv()
+            return V(br[1])
         self.steps.append([k, b] + list(extra) + [seq])
         self._adv()
         return V(b)
@@ -670,6 +765,34 @@ class Builder:
         # what both arms read first is read before the branch
         pre, sa, sb = common_prefix(sa, sb)
         self.steps.extend(pre)
+        # what both arms read last (independently of what differs) is read after the branch; the branch then yields
+        # only the part of the value that differs
+        cs = common_suffix(sa, sb)
+        if cs is not None:
+            sa2, sb2, suffix = cs
+            holes = []
+            gen_ret = antiunify(sa2["ret"][1], sb2["ret"][1], holes)
+            def fill(term, vals):
+                if isinstance(term, list):
+                    if len(term) == 2 and term[0] == "hole":
+                        return vals[term[1]]
+                    return [fill(x, vals) for x in term]
+                return term
+            if not holes and not sa2["steps"] and not sb2["steps"]:
+                # the arms do the same thing: no branch at all
+                self.steps.extend(suffix)
+                self._adv()
+                return gen_ret
+            if len(holes) <= 1:
+                ra = holes[0][0] if holes else tup()
+                rb = holes[0][1] if holes else tup()
+                inner = self._ite_built(c, {"steps": sa2["steps"], "ret": ["ok", ra]}, {"steps": sb2["steps"], "ret": ["ok", rb]}, ca, cb)
+                self.steps.extend(suffix)
+                self._adv()
+                return fill(gen_ret, [inner])
+        return self._ite_built(c, sa, sb, ca, cb)
+
+    def _ite_built(self, c, sa, sb, ca, cb):
         # a branch that only rejects is a guard
         if not sa["steps"] and sa["ret"] and sa["ret"][0] == "err" and sa["ret"][2] == "Error":
             self.guard(c, sa["ret"][1])
@@ -702,6 +825,10 @@ class Builder:
         nc = eq_consts(canon(["not", c]))
         if nc is not None:
             return self._switch_built(nc[0], [(sorted(set(nc[1])), sb, cb)], sa, ca)
+        # polarity: of c and its negation keep the one that sorts first (arms swapped accordingly)
+        nc_ = negate(c)
+        if json.dumps(nc_, sort_keys=True) < json.dumps(c, sort_keys=True):
+            c, sa, sb, ca, cb = nc_, sb, sa, cb, ca
         b = self.counter.fresh()
         self.steps.append(["ite", b, c, sa, sb])
         if ca.cur != self.cur or cb.cur != self.cur:
@@ -778,6 +905,24 @@ class Builder:
                 if c not in seen:
                     built.append(([c], mapped(s), None))
             d, dchild = mapped(inner[4]), None
+        # arms that all parse the same region (`k => p_k(region)`) are a dispatch inside that region
+        cand = [x[1] for x in built if not rejects(x[1])] + ([] if rejects(d) else [d])
+        if len(cand) >= 2 and all(len(s["steps"]) == 1 and s["steps"][0][0] == "sub" and s["ret"] == ["ok", V(s["steps"][0][1])] for s in cand) \
+                and all(s["steps"][0][2] == cand[0]["steps"][0][2] for s in cand) and not occurs(scrut, V(cand[0]["steps"][0][1])):
+            region = cand[0]["steps"][0][2]
+            def inner(s):
+                return s if rejects(s) else s["steps"][0][3]
+            sb_ = self.counter.fresh()
+            ib_ = self.counter.fresh()
+            flat_ = sorted([[c, inner(s)] for cs, s, _ in built for c in cs], key=lambda x_: x_[0])
+            import copy
+            canon_of_ = {}
+            for ent in flat_:
+                key_ = json.dumps(renumber(copy.deepcopy(ent[1])), sort_keys=True)
+                ent[1] = canon_of_.setdefault(key_, ent[1])
+            nested = {"steps": [["switch", ib_, scrut, flat_, inner(d)]], "ret": ["ok", V(ib_)]}
+            self.steps.append(["sub", sb_, region, nested])
+            return V(sb_)
         live = [x for x in built if not rejects(x[1])]
         # `match x { c => body, _ => Err }` is a guard (reject unless x == c) followed by body;
         # `match x { c => Err, _ => body }` is a guard (reject if x == c) followed by body
@@ -1084,6 +1229,25 @@ class Closure:
         self.gen = gen
 
 
+class FnVal:
+    """a function named by a path (fn item or tuple-struct / variant constructor) held in a local or passed to a helper:
+    usable as a parser (applied to the input) or as a mapping function, whichever its use site asks for"""
+    def __init__(self, hir):
+        self.hir = hir
+
+
+class ParserChoice:
+    """a parser chosen by a match / if / helper returning a fn pointer (possibly inside an Option): evaluated where it is applied"""
+    def __init__(self, hir, env, gen, tok):
+        self.hir, self.env, self.gen, self.tok = hir, env, gen, tok
+
+
+class LazyResult:
+    """`let res = <Result-typed expression>;` not yet looked at: evaluated where `res` is used (returned, matched, `?`)"""
+    def __init__(self, hir, env, gen, tok):
+        self.hir, self.env, self.gen, self.tok = hir, env, gen, tok
+
+
 class ParserFn:
     """a parser-valued thing that can be applied to a builder"""
 
@@ -1114,7 +1278,7 @@ class Ev:
         return build(body)
 
     # ---------------------------------------------------------------- calling a local parser fn
-    def call_parser_fn(self, f, gen_args, args_exprs_env, extra_syms, b):
+    def call_parser_fn(self, f, gen_args, args_exprs_env, extra_syms, b, input_index=0):
         """Evaluate the body of local fn f as a parser on builder b.
         First parameter is the input; the others are bound to extra_syms or symbolic params."""
         self.called.add(f["path"])
@@ -1128,8 +1292,10 @@ class Ev:
         params = f["params"]
         if not params:
             raise Opaque("parser fn without parameters: " + f["path"])
-        self.bind_pat(params[0], b.tok(), env)
-        for idx, p in enumerate(params[1:]):
+        if input_index >= len(params):
+            input_index = 0
+        self.bind_pat(params[input_index], b.tok(), env)
+        for idx, p in enumerate(params[:input_index] + params[input_index + 1:]):
             if extra_syms is not None and idx < len(extra_syms):
                 val = extra_syms[idx]
             else:
@@ -1201,6 +1367,11 @@ class Ev:
             if e.get("f") is None:
                 raise Opaque("if without else in result position")
             return b.ite(c, lambda nb: self.eval_result_block(e["t"], env, gen, nb), lambda nb: self.eval_result_block(e["f"], env, gen, nb))
+        if k == "local" and isinstance(env.get(e["id"]), LazyResult):
+            lz = env[e["id"]]
+            if b.cur != lz.tok:
+                raise Opaque("a parser result bound before other reads is used after them")
+            return self.eval_result_block(lz.hir, lz.env, lz.gen, b)
         if k == "match":
             inner = is_try(e)
             if inner is not None:
@@ -1240,6 +1411,9 @@ class Ev:
                             self.anomalies.append(("REMAINDER", "Result::map closure changes the remainder", short_loc(e.get("loc"))))
                         return self.sym(body["xs"][1], env2, gen)
                 raise Opaque("Result::map with unrecognised closure")
+            if nm in ("core::option::Option::<T>::unwrap_or_else", "core::option::Option::<T>::unwrap_or") and len(e["args"]) == 1:
+                # helper(..) -> Option<IResult>, None replaced by an error result
+                return self.eval_choice(e, env, gen, b, lambda x, env2, nb: self.eval_result_block(x, env2, gen, nb), None)
             raise Opaque("method call in result position: " + nm)
         raise Opaque("result expression kind " + k)
 
@@ -1330,7 +1504,27 @@ class Ev:
                 ie = {"k": "match", "scrut": init, "arms": [{"pat": pat, "guard": None, "body": {"k": "__bound__"}}, {"pat": {"k": "wild"}, "guard": None, "body": s["els"]}], "ty": ""}
                 v = self.eval_let_else(ie, pat, env, gen, b)
                 return None
-            if has_effects(ie):
+            if has_effects(ie) and ie["k"] in ("match", "if") and is_try(ie) is None and (rest or tail is not None) and self.some_arm_returns_value(ie):
+                # let x = match .. { A => v, B => return R };  REST   ==   match .. { A => { let x = v; REST }, B => R }
+                rest_block = {"k": "block", "stmts": rest, "expr": tail}
+                def arm_eval(body, env2, nb):
+                    if self.diverges(body):
+                        return self.eval_result_block(body, env2, gen, nb)
+                    env3 = dict(env2)
+                    vv = self.eval_value_expr(body, env2, gen, nb) if has_effects(body) else self.sym_or_closure(body, env2, gen)
+                    self.bind_pat(pat, vv, env3)
+                    return self.eval_result_block_noskip(rest_block, env3, gen, nb)
+                if ie["k"] == "match":
+                    return (self.eval_match(ie, env, gen, b, arm_eval),)
+                c_ = self.sym(ie["c"], env, gen)
+                return (b.ite(c_, lambda nb: arm_eval(ie["t"], env, nb), lambda nb: arm_eval(ie["f"], env, nb)),)
+            if IRESULT_TY.match(ie.get("ty", "")) and pat["k"] == "bind" and not has_effects(ie) and ie["k"] in ("call", "mcall", "match", "if", "block"):
+                env[pat["id"]] = LazyResult(ie, dict(env), gen, b.cur)
+                return None
+            if FNPTR_TY.match(ie.get("ty", "")) and ie["k"] in ("match", "if", "block", "call", "mcall"):
+                # a parser picked by control flow (fn pointer): evaluated where it is applied
+                v = ParserChoice(ie, dict(env), gen, b.cur)
+            elif has_effects(ie):
                 v = self.eval_value_expr(ie, env, gen, b)
             else:
                 # pure let
@@ -1450,6 +1644,103 @@ class Ev:
             return self.eval_match(e, env, gen, b, lambda body, env2, nb: self.eval_value_expr(body, env2, gen, nb))
         raise Opaque("effectful value expression " + k)
 
+    def apply_choice(self, v, b):
+        if has_effects(v.hir) and b.cur != v.tok:
+            raise Opaque("a parser chosen with an early return is applied after other reads")
+        return self.eval_choice(v.hir, v.env, v.gen, b, lambda x, env2, nb: self.parser_of(x, env2, v.gen).apply(nb), None)
+
+    def eval_choice(self, e, env, gen, b, leaf, none_handler, depth=0):
+        """e chooses, by control flow, among leaves (parsers to apply / Result expressions to evaluate), possibly
+        wrapped in Option (None handled by none_handler): emit the choice as a dispatch whose arms are the evaluated leaves"""
+        e = strip(e)
+        k = e["k"]
+        if depth > 12:
+            raise Opaque("choice nesting")
+        rec = lambda x, env2, nb, nh=none_handler: self.eval_choice(x, env2, gen, nb, leaf, nh, depth + 1)
+        OPT = "core::option::Option::<T>::"
+        if k == "match":
+            inner = is_try(e)
+            if inner is not None:
+                inner = strip(inner)
+                if inner["k"] == "mcall" and inner.get("path") in (OPT + "ok_or", OPT + "ok_or_else"):
+                    a0 = strip_ref(inner["args"][0])
+                    errx, eenv = (a0["body"], env) if a0["k"] == "closure" else (a0, env)
+                    def handler(nb, errx=errx, eenv=eenv):
+                        kind, sev = self.err_kind(errx)
+                        nb.fail(kind, sev)
+                    return self.eval_choice(inner["recv"], env, gen, b, leaf, handler, depth + 1)
+                raise Opaque("? inside a choice of parsers")
+            return self.eval_match(e, env, gen, b, lambda body, env2, nb: rec(body, env2, nb))
+        if k == "if" and e.get("f") is not None:
+            c = self.sym(e["c"], env, gen)
+            return b.ite(c, lambda nb: rec(e["t"], env, nb), lambda nb: rec(e["f"], env, nb))
+        if k == "block":
+            env2 = dict(env)
+            for s in e["stmts"]:
+                if s["k"] == "let" and s.get("init") is not None and s["pat"]["k"] == "bind" and has_effects(s["init"]) and strip(s["init"])["k"] in ("match", "if"):
+                    # let res = match .. { .., _ => return None };   evaluated where `res` is used
+                    env2[s["pat"]["id"]] = LazyResult(strip(s["init"]), dict(env2), gen, b.cur)
+                    continue
+                if self.eval_stmt(s, env2, gen, b, [], None) is not None:
+                    raise Opaque("return of a value inside a choice")
+            if e["expr"] is None:
+                raise Opaque("choice block without value")
+            return rec(e["expr"], env2, b)
+        if k == "ret":
+            x = strip(e["x"])
+            if x["k"] == "call" and path_of(x["f"]) == "core::result::Result::Err":
+                kind, sev = self.err_kind(x["args"][0])
+                b.fail(kind, sev)
+            if (x["k"] == "path" and x.get("path") == "core::option::Option::None") or (x["k"] == "call" and path_of(x["f"]) == "core::option::Option::Some"):
+                return rec(x, env, b)   # the helper returns this Option
+            raise Opaque("early return of a non-error inside a choice")
+        if k == "local" and isinstance(env.get(e["id"]), (LazyResult, ParserChoice)):
+            lz = env[e["id"]]
+            return self.eval_choice(lz.hir, lz.env, lz.gen, b, leaf, none_handler, depth + 1)
+        if k == "path" and e.get("path") == "core::option::Option::None":
+            if none_handler is None:
+                raise Opaque("None without a handler in a choice")
+            return none_handler(b)
+        if k == "call":
+            f = strip(e["f"])
+            fp = path_of(f)
+            if fp == "core::option::Option::Some" and len(e["args"]) == 1:
+                return rec(e["args"][0], env, b)
+            is_local = f.get("resolved_local") if f.get("resolved") else f.get("local")
+            if f["k"] == "path" and f.get("dk") in ("Fn", "AssocFn") and is_local and OPT_OR_FN_TY.match(e.get("ty", "")):
+                callee = self.facts.fn(f.get("resolved") or f["path"])
+                if callee is None or len(callee["params"]) != len(e["args"]):
+                    raise Opaque("helper of a choice")
+                env2 = {}
+                for p, a in zip(callee["params"], e["args"]):
+                    self.bind_pat(p, self.sym_or_closure(a, env, gen), env2)
+                self.called.add(callee["path"])
+                return self.eval_choice(callee["hir"], env2, {}, b, leaf, none_handler, depth + 1)
+        if k == "mcall":
+            p = e.get("path") or ""
+            if p in ("core::bool::<impl bool>::then", "core::bool::<impl bool>::then_some") and len(e["args"]) == 1:
+                if none_handler is None:
+                    raise Opaque("bool::then without a handler for None")
+                c = self.sym(e["recv"], env, gen)
+                a0 = strip_ref(e["args"][0])
+                body = a0["body"] if (a0["k"] == "closure" and p.endswith("::then")) else a0
+                return b.ite(c, lambda nb: rec(body, env, nb), lambda nb: none_handler(nb))
+            if p in (OPT + "unwrap_or_else", OPT + "unwrap_or") and len(e["args"]) == 1:
+                a0 = strip_ref(e["args"][0])
+                body = a0["body"] if (a0["k"] == "closure" and p.endswith("_else")) else a0
+                return self.eval_choice(e["recv"], env, gen, b, leaf, lambda nb: self.eval_choice(body, env, gen, nb, leaf, None, depth + 1), depth + 1)
+            is_local = e.get("resolved_local") if e.get("resolved") else e.get("local")
+            if is_local and OPT_OR_FN_TY.match(e.get("ty", "")):
+                callee = self.facts.fn(e.get("resolved") or p)
+                if callee is not None and len(callee["params"]) == len(e["args"]) + 1:
+                    env2 = {}
+                    self.bind_pat(callee["params"][0], self.sym_or_closure(e["recv"], env, gen), env2)
+                    for pp, a in zip(callee["params"][1:], e["args"]):
+                        self.bind_pat(pp, self.sym_or_closure(a, env, gen), env2)
+                    self.called.add(callee["path"])
+                    return self.eval_choice(callee["hir"], env2, {}, b, leaf, none_handler, depth + 1)
+        return leaf(e, env, b)
+
     def eval_unit_result(self, e, env, gen, b, depth=0):
         """e : Result<(), Err>.  Emits the guards it stands for."""
         e = strip(e)
@@ -1526,6 +1817,37 @@ class Ev:
         if blk["expr"] is None:
             raise Opaque("block without tail in result position")
         return self.eval_result_block(blk["expr"], env, gen, b)
+
+    def diverges(self, body):
+        """does the arm body end in `return ..` (so that its value is the function's result)?"""
+        b_ = strip(body)
+        if b_["k"] == "ret":
+            return True
+        if b_["k"] == "block":
+            if b_["expr"] is not None:
+                return self.diverges(b_["expr"])
+            if b_["stmts"] and b_["stmts"][-1]["k"] in ("semi", "sexpr"):
+                return strip(b_["stmts"][-1]["e"])["k"] == "ret"
+        return False
+
+    def some_arm_returns_value(self, e):
+        """an arm `return`s something other than a plain `Err(..)` literal (those are handled as guards)"""
+        def rets(x):
+            if isinstance(x, dict):
+                if x.get("k") == "closure":
+                    return
+                if x.get("k") == "ret":
+                    yield x
+                for v in x.values():
+                    yield from rets(v)
+            elif isinstance(x, list):
+                for v in x:
+                    yield from rets(v)
+        for r in rets(e):
+            x = strip(r.get("x")) if r.get("x") is not None else None
+            if not (x is not None and x["k"] == "call" and path_of(x["f"]) == "core::result::Result::Err"):
+                return True
+        return False
 
     def returns_expr(self, blk):
         """block `{ return X; }` -> X"""
@@ -1623,6 +1945,15 @@ class Ev:
         env2["__alias__"][json.dumps(new)] = old
         return env2
 
+    def input_index(self, e):
+        """which argument of a call is the parser input: the first one of type &[u8] (helpers may take it after
+        their other parameters); 0 if none is typed that way"""
+        for j, a in enumerate(e["args"]):
+            ty = strip(a).get("ty", "")
+            if re.fullmatch(r"&(?:'\w+ )?\[u8\]", ty):
+                return j
+        return 0
+
     def input_of(self, e, env, gen):
         """the input a Result-typed *application* runs on (sym), or None if e is not a direct application"""
         e = strip(e)
@@ -1632,7 +1963,7 @@ class Ev:
             if fp in ("core::result::Result::Ok", "core::result::Result::Err"):
                 return None
             if e["args"]:
-                a0 = strip_ref(e["args"][0])
+                a0 = strip_ref(e["args"][self.input_index(e)])
                 try:
                     v = self.sym(a0, env, gen)
                 except Opaque:
@@ -1690,6 +2021,17 @@ class Ev:
         cases = []
         default = None
         for idx, a in enumerate(arms):
+            rc = self.range_cond(a["pat"], scrut_val) if a.get("guard") is None else None
+            if rc is not None:
+                # `lo..=hi => body` over a wide range: the arm is `if lo <= x && x <= hi { body } else { the other arms }`
+                g, binds_g = rc
+                env_g = dict(env)
+                for bid in binds_g:
+                    env_g[bid] = scrut
+                rest = dict(e)
+                rest["arms"] = arms[idx + 1:]
+                default = ("guarded", g, a["body"], env_g, rest)
+                break
             if a.get("guard") is not None:
                 # `x if g => body` after constant arms: the catch-all of the switch so far is
                 # `if g { body } else { match over the remaining arms }`
@@ -1728,6 +2070,38 @@ class Ev:
             return dflt(b)
         return b.switch(scrut_val, [(c, (lambda a: (lambda nb: arm_eval(a["body"], env, nb)))(a)) for c, a in cases], dflt)
 
+    def range_cond(self, p, x):
+        """a range pattern (possibly `name @ lo..=hi`) covering more than 64 values: (condition on x, [binder ids])"""
+        binds = []
+        while p["k"] in ("pref", "pderef") or (p["k"] == "bind" and p.get("sub")):
+            if p["k"] == "bind":
+                binds.append(p["id"])
+                p = p["sub"]
+            else:
+                p = p["pat"]
+        if p["k"] != "prange":
+            return None
+        def val(z):
+            if not z:
+                return None
+            return z.get("v", z.get("val"))
+        lo, hi = val(p.get("lo")), val(p.get("hi"))
+        if lo is None and p.get("lo"):
+            return None
+        if hi is None and p.get("hi"):
+            return None
+        if lo is not None and hi is not None and hi - lo <= 64:
+            return None
+        c = None
+        if lo:
+            c = le(N(lo), x)
+        if hi is not None:
+            h = le(x, N(hi)) if p["end"] == "Included" else lt(x, N(hi))
+            c = h if c is None else land(c, h)
+        if c is None:
+            c = ["bool", True]
+        return c, binds
+
     def pat_consts(self, p):
         """-> (list of ints, []) for constant patterns; (None, [binder ids]) for catch-all"""
         k = p["k"]
@@ -1758,9 +2132,11 @@ class Ev:
             return self.pat_consts(p["pats"][0])
         if k == "prange":
             lo, hi = p.get("lo"), p.get("hi")
-            if lo and hi and "v" in lo and "v" in hi and hi["v"] - lo["v"] < 70000:
-                end = hi["v"] + (1 if p["end"] == "Included" else 0)
-                return list(range(lo["v"], end)), []
+            lov = lo.get("v", lo.get("val")) if lo else None
+            hiv = hi.get("v", hi.get("val")) if hi else None
+            if lov is not None and hiv is not None and hiv - lov < 70000:
+                end = hiv + (1 if p["end"] == "Included" else 0)
+                return list(range(lov, end)), []
         raise Opaque("match pattern " + k)
 
     # ---------------------------------------------------------------- applications
@@ -1777,9 +2153,10 @@ class Ev:
                 callee = self.facts.fn(target)
                 if callee is None:
                     raise Opaque("no body for " + target)
-                extra = [self.sym_or_closure(a, env, gen) for a in args[1:]]
+                j = self.input_index(e)
+                extra = [self.sym_or_closure(a, env, gen) for idx_, a in enumerate(args) if idx_ != j]
                 gargs = [self.gen_subst(a, gen) for a in f.get("args", [])]
-                return self.call_parser_fn(callee, gargs, None, extra, b)
+                return self.call_parser_fn(callee, gargs, None, extra, b, input_index=j)
             # foreign function applied directly, e.g. be_u16(i) or <u8 as Parse>::parse(i)
             pf = self.parser_of(f, env, gen)
             return pf.apply(b)
@@ -1825,6 +2202,10 @@ class Ev:
                 return self.closure_parser(v)
             if isinstance(v, ParserFn):
                 return v
+            if isinstance(v, FnVal):
+                return self.parser_of(v.hir, {}, gen)
+            if isinstance(v, ParserChoice):
+                return ParserFn(lambda b: self.apply_choice(v, b), "chosen parser")
             if isinstance(v, list) and v and v[0] == "p":
                 return ParserFn(lambda b: b.param_parser(v[1]), "param " + v[1])
             raise Opaque("local used as parser: " + e["name"])
@@ -1976,6 +2357,12 @@ class Ev:
         if e["k"] == "path" and e.get("dk") in ("Fn", "AssocFn"):
             p = e.get("resolved") or e["path"]
             return lambda v: self.pure_call(p, [v], e)
+        if e["k"] == "local":
+            fv = env.get(e["id"])
+            if isinstance(fv, FnVal):
+                return self.fn_value(fv.hir, {}, gen)
+            if isinstance(fv, Closure):
+                return self.fn_value(fv.hir, fv.env, fv.gen)
         raise Opaque("function value " + e["k"])
 
     # ---------------------------------------------------------------- pure expressions
@@ -1983,6 +2370,10 @@ class Ev:
         e2 = strip_ref(e)
         if e2["k"] == "closure":
             return Closure(e2, env, gen)
+        if e2["k"] == "path" and (e2.get("dk") in ("Fn", "AssocFn") or (e2.get("dk", "").startswith("Ctor") and "Fn" in e2.get("dk", ""))):
+            return FnVal(e2)
+        if e2["k"] == "local" and isinstance(env.get(e2["id"]), (Closure, FnVal, ParserFn, ParserChoice)):
+            return env[e2["id"]]
         return self.sym(e, env, gen)
 
     def pure_call(self, path, args, e=None):
@@ -2006,7 +2397,9 @@ class Ev:
         if k == "local":
             if e["id"] in env:
                 v = env[e["id"]]
-                if isinstance(v, (Closure, ParserFn)):
+                if isinstance(v, FnVal):
+                    return self.sym(v.hir, {}, gen)
+                if isinstance(v, (Closure, ParserFn, ParserChoice)):
                     raise Opaque("closure used as value")
                 return v
             return ["opaque", "unbound " + e["name"]]
@@ -2233,6 +2626,11 @@ class Ev:
         for i, p in enumerate(clo["params"]):
             self.bind_pat(p, ["lp", i], env2)
         return ["lam", len(clo["params"]), self.sym(clo["body"], env2, gen)]
+
+
+IRESULT_TY = re.compile(r"^core::result::Result<\(&")
+FNPTR_TY = re.compile(r"^(for<[^>]*> ?)?(unsafe )?fn\(")
+OPT_OR_FN_TY = re.compile(r"^(core::option::Option<|(for<[^>]*> ?)?fn\()")
 
 
 def has_effects(e):
